@@ -473,3 +473,49 @@ def check_private_attrs_initialised(run, program, rule_prefix="F-LAZY"):
                 f"self.{attr} is read in Grid.{f.name} but never assigned in Grid.__init__: AttributeError on a fresh grid, and its value depends on call history",
             )
     return cnt
+
+
+def derived_variable_names(program):
+    """names of the grid variables that Grid derives lazily: properties of Grid whose body tests  "<name>" not in self._ds  and returns self._ds["<name>"]"""
+    out = set()
+    ci = program.cls(f"{GRID}:Grid")
+    for name, f in ci.methods.items():
+        if not any("property" in d for d in f.decorators):
+            continue
+        rets = [r for r in ast.walk(f.node) if isinstance(r, ast.Return) and isinstance(r.value, ast.Subscript) and str_const(r.value.slice) == name]
+        tests = [t for t in ast.walk(f.node) if isinstance(t, ast.Compare) and str_const(t.left) == name]
+        if rets and tests:
+            out.add(name)
+    return out
+
+
+def check_single_deriver(run, program, rule_prefix="F-LAZY"):
+    """Who may derive a grid variable: a lazily derived variable (node_lon, face_x, edge_node_connectivity, bounds ...) is computed in ONE place, its _populate_*/_build_*
+    routine behind the Grid property.  An exporter (io `_encode_*`) that computes a missing one by its own formula creates a second derivation that can disagree with what
+    the Grid reports (other wrap, other normalisation), and then an export made before the property was read differs from one made after."""
+    derived = derived_variable_names(program)
+    n = 0
+    for f in program.all_functions():
+        if not (f.module.relpath.startswith("uxarray/io/") and f.name.startswith("_encode")):
+            continue
+        stores = [(k, st) for k, st, _a, _fl in stores_with_guards_any(f.node)]
+        own = [(k, st) for k, st in stores if k in derived]
+        c = f"{f.key}:derives-no-grid-variable"
+        n += 1
+        if own:
+            k, st = own[0]
+            run.violation(f"{rule_prefix}/single-deriver", c, where(f, st), f'the exporter stores "{k}" itself: this is a second derivation of a variable the Grid derives through its property {k} '
+                          "(possibly with another longitude wrap / normalisation); the export then depends on whether the property was read before")
+        else:
+            run.holds(f"{rule_prefix}/single-deriver", c, where(f), f"stores none of the {len(derived)} lazily derived grid variables")
+    return n
+
+
+def stores_with_guards_any(fnode):
+    """like stores_with_guards but for  <any name>["k"] = ...  (the encoders work on a local dataset)"""
+    out = []
+    for st in ast.walk(fnode):
+        if isinstance(st, ast.Assign) and len(st.targets) == 1 and isinstance(st.targets[0], ast.Subscript) and str_const(st.targets[0].slice) is not None \
+                and isinstance(st.targets[0].value, (ast.Name, ast.Attribute)):
+            out.append((str_const(st.targets[0].slice), st, set(), set()))
+    return out
